@@ -69,6 +69,9 @@ def merge_shards(rs):
         for e in x["examples"]:
             if sum(1 for f in m["write_faults"]["examples"] if f["class"] == e["class"]) < 3:
                 m["write_faults"]["examples"].append(e)
+    kws = [r["killed_writers"] for r in rs]
+    m["killed_writers"] = {"kills": sum(x["kills"] for x in kws), "died_as_planned": sum(x["died_as_planned"] for x in kws),
+                           "bad": sorted(b for x in kws for b in x["bad"]), "examples": [e for x in kws for e in x["examples"]][:4]}
     m["examples"] = [e for i, e in enumerate(ex)
                      if sum(1 for f in ex[:i] if (f["class"], f["fault"]) == (e["class"], e["fault"])) < 3]
     return m
@@ -222,6 +225,21 @@ def run(tier):
                            "after write faults the cache file is not rewritten once space is available",
                            "failing": wf["bad"][:30], "example": ex,
                            "job": dict(job, range=[0, -1], fault_only=[k_])}, tag=tag)
+        kwd = d["killed_writers"]
+        for n_ in range(2 * kwd["kills"]):
+            chk.count(("kw", len(per_dir), n_), nontrivial=True)
+        per_dir[-1]["killed_writers"] = {"writers_killed": kwd["kills"], "died_by_signal": kwd["died_as_planned"], "failures": len(kwd["bad"])}
+        seen_kw = set()
+        for k_, cls_ in kwd["bad"]:
+            found = True
+            tag = "dircache-killed-writer:" + {"hang": "hang", "empty": "empty-reply", "wrong": "wrong-reply"}[cls_]
+            if tag in seen_kw:
+                continue
+            seen_kw.add(tag)
+            chk.violation({"what": "a writer of the cache file was killed (SIGKILL) after %d of %d bytes: a later listing request %s"
+                                   % (k_, size, "never finishes" if cls_ == "hang" else "is not answered with the listing"),
+                           "failing": kwd["bad"][:20], "example": next((e for e in kwd["examples"] if e["class"] == cls_), None),
+                           "job": dict(job, range=[0, -1], fault_only=[], kill_only=[k_])}, tag=tag)
         if d["not_restored"] and not (d["prefix_fail_counts"]["empty"] or d["prefix_fail_counts"]["wrong"]):
             found = True
             chk.violation({"what": "after a request that met a damaged cache file the file is not a complete fresh entry",
@@ -303,7 +321,9 @@ def run(tier):
                    "always 0,1,2,size-1) the cache write path has room for k bytes only (ENOSPC/EDQUOT/EIO by wrapping "
                    "VFS_Real.open from outside, EFBIG by the kernel via RLIMIT_FSIZE) for two consecutive requests, starting from "
                    "an absent / expired / cut-off cache file, then a third request with space available: all three replies "
-                   "compared with the cacheless listing, the file afterwards with a complete entry; deterministic schedules of 2-3 concurrent requests that all observe the same cut-off file (5 cut "
+                   "compared with the cacheless listing, the file afterwards with a complete entry; killed writers: a forked copy of the "
+                   "server process serves a listing and is SIGKILLed after k bytes of the cache file (whatever else it had created "
+                   "stays behind), then two requests with a 4 s limit each; deterministic schedules of 2-3 concurrent requests that all observe the same cut-off file (5 cut "
                    "points) or a writer that has truncated but not written, compared with Model/Conc.v and the sequential answer; "
                    "same enumeration over the three ZIP index cache files; non-trivial = every such request")
     chk.sample({"kind": "directory", **{k: v for k, v in per_dir[0].items() if k != "pickle"}})
@@ -345,6 +365,10 @@ def replay(path):
     n = sum(bad.values()) + sum(1 for v in (d.get("others") or {}).values() if v != "ok") + d.get("nfails", 0)
     wf = d.get("write_faults") or {}
     n += len(wf.get("bad", []))
+    kwd = d.get("killed_writers") or {}
+    n += len(kwd.get("bad", []))
+    if kwd.get("bad"):
+        print("killed writers:", kwd["bad"][:10], json.dumps(kwd.get("examples", [])[:1], indent=1)[:1500])
     if wf.get("bad"):
         print("write faults:", wf["bad"][:10], json.dumps(wf.get("examples", [])[:1], indent=1)[:1500])
     print(json.dumps({k: d.get(k) for k in ("size", "range", "prefix_fail_ranges", "others", "examples", "fails")}, indent=1)[:3000])
